@@ -373,4 +373,16 @@ theorem C15_sdl_route_any_order (c : DeclCfg.Cfg) (M : TsDoc) (h : ValidParsed M
 example : ValidParsed exampleM ∧ UserNotBuiltin exampleM ∧ (docSdl exampleM).reverse.Perm (docSdl exampleM) :=
   ⟨exampleM_valid, by decide, List.reverse_perm _⟩
 
+/-!
+## OPEN — carried by K/O only
+
+See the block at the end of `Props/C15.lean`.  For this module: that `ResolverDecls.resolversFile` /
+`SchemaDecls.schemaFile` / `allDocs` are the real printers (K of C10 on SDL inputs, the two-route O stream);
+argument-description JSDoc inside the resolvers file (outside the model); WHICH permutation `resolve_schema_extensions`
+applies (C11 — `C15_sdl_route_any_order` covers every permutation); `C15_schemaMetadata_duplicate_root_counterexample` is
+a statement about the MODELS (`CheckTs.checkSchema`, `SchemaDecls.schemaMetadata`) and has not been replayed on the real
+CLI.  Hypotheses not discharged anywhere: `ValidParsed`, `UserNotBuiltin`, `DeclsOk`, `RootKindsDistinct`, and for
+`C15_schemaFile_routes_eq` that the SDL route produces the file.
+-/
+
 end NitroVerif.C15
